@@ -910,7 +910,13 @@ def decode_instr(prog, m, p):
         t = p.type()
         inc = {}
         while p.accept('['):
-            v = V(t)
+            if p.peek()[1] == 'undef' and width(t) is not None and m.resolve(t).k == 'int':
+                # an automatic variable that is read without having been written on this edge: an arbitrary value, kept as
+                # such (the executor makes it a fresh never-written-memory symbol) instead of folding it to zero
+                p.next()
+                v = ('UNDEF', width(t))
+            else:
+                v = V(t)
             p.expect(',')
             pred = p.next()[1]
             p.expect(']')
@@ -1068,7 +1074,7 @@ def decode_instr(prog, m, p):
 # ---------------------------------------------------------------------------
 def load_module_cached(path, cache_dir):
     txt = open(path).read()
-    h = hashlib.sha256(txt.encode()).hexdigest()[:24]
+    h = hashlib.sha256(('parser-v2\n' + txt).encode()).hexdigest()[:24]
     cp = os.path.join(cache_dir, h + '.pm')
     if os.path.exists(cp):
         try:
